@@ -2,7 +2,7 @@ PROP = dict(
     lean_modules=["DefraModel.Props.C13"],
     props_modules=["DefraModel.Props.C13"],
     engines=[dict(name="ident", drv="ident", timeout=3600)],
-    rule=("(A) 400 (thorough: 20000) generated document contents over String/Int/Float/Boolean/DateTime fields (edge values: CBOR head-width boundaries 23/24/255/256/65535/65536/2^32, negative and 64-bit extremes, "
+    rule=("(A) 400 (thorough: 20000) generated document contents over String/Int/Float/Boolean/DateTime fields and [String!] / [Int!] / [Boolean!] / [Int] arrays (0-30 elements; of an array with nillable elements only the length reaches the serialisation) (edge values: CBOR head-width boundaries 23/24/255/256/65535/65536/2^32, negative and 64-bit extremes, "
           "empty/UTF-8/escaped strings, date-times with offsets and nanoseconds), each with omitted and explicitly nil fields, built through six routes (JSON sorted keys + nulls, JSON permuted keys without nulls, "
           "Go map with and without nil entries, GraphQL create on two different nodes); all docIDs must agree and Document.Bytes() is compared with the model's canonical CBOR; "
           "(B) 25 (thorough: 600) generated type graphs with 2-5 types and one-to-one relations incl. circular sets: the same definitions in the given order, 6-20 repetitions (Go map iteration varies), 6-20 random type orders, "
